@@ -1,6 +1,8 @@
 package ssaexec
 
 import (
+	"unicode"
+
 	"symgo/term"
 )
 
@@ -195,5 +197,75 @@ func init() {
 			return c.ret(term.And(inf, term.FpCmp(term.OFpLt, x, zero)))
 		}
 		return c.ret(inf)
+	}
+}
+
+// ---- unicode predicates (Latin-1 by table, computed from the real functions) and strings.IndexFunc ----
+
+func latin1Pred(f func(rune) bool, r *term.Term) *term.Term {
+	var alts []*term.Term
+	w := r.W()
+	for lo := 0; lo < 256; {
+		if !f(rune(lo)) {
+			lo++
+			continue
+		}
+		hi := lo
+		for hi+1 < 256 && f(rune(hi+1)) {
+			hi++
+		}
+		if lo == hi {
+			alts = append(alts, term.Eq(r, term.Const(w, uint64(lo))))
+		} else {
+			alts = append(alts, term.And(term.Uge(r, term.Const(w, uint64(lo))), term.Ule(r, term.Const(w, uint64(hi)))))
+		}
+		lo = hi + 1
+	}
+	return term.Or(alts...)
+}
+
+func init() {
+	for name, f := range map[string]func(rune) bool{
+		"unicode.IsLetter": unicode.IsLetter, "unicode.IsDigit": unicode.IsDigit, "unicode.IsSpace": unicode.IsSpace,
+		"unicode.IsUpper": unicode.IsUpper, "unicode.IsLower": unicode.IsLower, "unicode.IsNumber": unicode.IsNumber,
+		"unicode.IsPunct": unicode.IsPunct,
+	} {
+		f, name := f, name
+		Stubs[name] = func(ex *Exec, c *CallCtx) []*callResult {
+			r := c.Args[0].(*term.Term)
+			ex.precond(c, c.St, name+"-rune-is-latin1", term.Ult(r, term.Const(r.W(), 256)))
+			return c.ret(latin1Pred(f, r))
+		}
+	}
+	indexFunc := func(ex *Exec, c *CallCtx, b []*term.Term) []*callResult {
+		st := c.St
+		for _, x := range b {
+			ex.precond(c, st, "IndexFunc-ascii-input", term.Ult(x, term.Const(8, 0x80)))
+		}
+		res := c64(-1)
+		hits := make([]*term.Term, len(b))
+		for i, x := range b {
+			out := ex.callValue(c.Fr, st, c.Args[1], nil, []Value{term.Zext(x, 24)}, c.Site)
+			if len(out) != 1 || out[0].Panic != nil {
+				abort("UNSUPPORTED", "IndexFunc predicate with several outcomes at %s", ex.posOf(c.Site))
+			}
+			st = &State{G: out[0].G, H: out[0].H, F: st.F, Panics: out[0].Panics}
+			hits[i] = out[0].Ret.(*term.Term)
+		}
+		for i := len(b) - 1; i >= 0; i-- {
+			res = term.Ite(hits[i], c64(int64(i)), res)
+		}
+		return []*callResult{{G: st.G, H: st.H, Ret: res, Panics: st.Panics}}
+	}
+	Stubs["strings.IndexFunc"] = func(ex *Exec, c *CallCtx) []*callResult {
+		return indexFunc(ex, c, c.Args[0].(StringV).B)
+	}
+	Stubs["bytes.IndexFunc"] = func(ex *Exec, c *CallCtx) []*callResult {
+		return indexFunc(ex, c, ex.sliceBytes(c.St, c.Args[0].(SliceV)))
+	}
+	Stubs["strings.ContainsFunc"] = func(ex *Exec, c *CallCtx) []*callResult {
+		r := indexFunc(ex, c, c.Args[0].(StringV).B)
+		r[0].Ret = term.Sge(r[0].Ret.(*term.Term), c64(0))
+		return r
 	}
 }
